@@ -197,17 +197,21 @@ func H_C20_bt_pairs() {
 			c20Consume(t)
 			s.DeleteTable(vCtx(), &btapb.DeleteTableRequest{Name: vParent + "/tables/u"})
 		},
-		func() { s.ListTables(vCtx(), &btapb.ListTablesRequest{Parent: vParent}) },                           // 3
+		func() { s.ListTables(vCtx(), &btapb.ListTablesRequest{Parent: vParent}) },                          // 3
 		func() { s.GenerateConsistencyToken(vCtx(), &btapb.GenerateConsistencyTokenRequest{Name: vTable}) }, // 4
-		func() { s.CheckConsistency(vCtx(), &btapb.CheckConsistencyRequest{Name: vTable, ConsistencyToken: "TokenFor-" + vTable}) }, // 5
-		func() { s.ReadRows(&btpb.ReadRowsRequest{TableName: vTable}, &vReadStream{}) },                     // 6
+		func() {
+			s.CheckConsistency(vCtx(), &btapb.CheckConsistencyRequest{Name: vTable, ConsistencyToken: "TokenFor-" + vTable})
+		}, // 5
+		func() { s.ReadRows(&btpb.ReadRowsRequest{TableName: vTable}, &vReadStream{}) }, // 6
 		func() { // 7 MutateRow
 			s.MutateRow(vCtx(), &btpb.MutateRowRequest{TableName: vTable, RowKey: []byte("r"), Mutations: []*btpb.Mutation{
 				{Mutation: &btpb.Mutation_SetCell_{SetCell: &btpb.Mutation_SetCell{FamilyName: "f", ColumnQualifier: []byte("q"), TimestampMicros: 2000, Value: []byte("w")}}}}})
 		},
-		func() { s.DropRowRange(vCtx(), &btapb.DropRowRangeRequest{Name: vTable, Target: &btapb.DropRowRangeRequest_DeleteAllDataFromTable{DeleteAllDataFromTable: true}}) }, // 8
-		func() { s.DeleteTable(vCtx(), &btapb.DeleteTableRequest{Name: vTable}) },                           // 9
-		func() { s.SampleRowKeys(&btpb.SampleRowKeysRequest{TableName: vTable}, &vSampleStream{}) },          // 10
+		func() {
+			s.DropRowRange(vCtx(), &btapb.DropRowRangeRequest{Name: vTable, Target: &btapb.DropRowRangeRequest_DeleteAllDataFromTable{DeleteAllDataFromTable: true}})
+		}, // 8
+		func() { s.DeleteTable(vCtx(), &btapb.DeleteTableRequest{Name: vTable}) },                   // 9
+		func() { s.SampleRowKeys(&btpb.SampleRowKeysRequest{TableName: vTable}, &vSampleStream{}) }, // 10
 	}
 	a := vChoice("op.a", 0, len(ops)-1)
 	b := vChoice("op.b", a, len(ops)-1)
